@@ -628,7 +628,12 @@ func (server *SugarDB) adjustMemoryUsage(ctx context.Context) error {
 		for {
 			// Get random volatile key
 			server.keysWithExpiry.rwMutex.RLock()
-			idx := rand.Intn(len(server.keysWithExpiry.keys))
+			if len(server.keysWithExpiry.keys[database]) == 0 {
+				// No volatile keys left in this database: nothing this policy may evict.
+				server.keysWithExpiry.rwMutex.RUnlock()
+				return errors.New("adjustMemoryUsage -> volatile keys random: no volatile keys to evict")
+			}
+			idx := rand.Intn(len(server.keysWithExpiry.keys[database]))
 			key := server.keysWithExpiry.keys[database][idx]
 			server.keysWithExpiry.rwMutex.RUnlock()
 			verif.Point("evict", database, key, "volatile-random", server.memUsed)
